@@ -107,6 +107,28 @@ theorem C12_srcmap_leftmost (ex o : Origin) (h : ex.lineLoc ≠ o.lineLoc) :
     pick [ex, o] = some (if ex.col ≤ o.col then ex else o) := by
   by_cases hc : ex.col ≤ o.col <;> simp [pick, pickStep, keep, h, hc]
 
+/-- The walk order does not matter for the *line* an entry points to: when all annotated nodes of a
+generated line come from one original line (one statement per line), every permutation of the walk
+(a different traversal order of `parallel_walk`) yields the same keys with the same original lines. -/
+theorem C12_srcmap_order_irrelevant (items items' : List WalkItem) (hperm : items.Perm items')
+    (hone : ∀ it₁ ∈ items, ∀ it₂ ∈ items, ∀ k o₁ o₂, it₁.key = some k → it₂.key = some k →
+              it₁.origin = some o₁ → it₂.origin = some o₂ → o₁.lineLoc = o₂.lineLoc) :
+    ∀ k o, (k, o) ∈ createSourceMap items → ∃ o', (k, o') ∈ createSourceMap items' ∧ o'.lineLoc = o.lineLoc := by
+  intro k o hmem
+  have hp := (C12_srcmap_entry_iff items k o).mp hmem
+  obtain ⟨it, hit, hkey, horg⟩ := mem_originsAt (pick_mem hp)
+  have hit' : it ∈ items' := hperm.mem_iff.mp hit
+  have hne : originsAt items' k ≠ [] := by
+    intro h
+    have : o ∈ originsAt items' k := by
+      unfold originsAt
+      exact List.mem_filterMap.mpr ⟨it, hit', by simp [hkey, horg]⟩
+    rw [h] at this; cases this
+  obtain ⟨o', ho'⟩ := pick_isSome hne
+  obtain ⟨it2, hit2, hkey2, horg2⟩ := mem_originsAt (pick_mem ho')
+  refine ⟨o', (C12_srcmap_entry_iff items' k o').mpr ho', ?_⟩
+  exact hone it2 (hperm.mem_iff.mpr hit2) it hit k o' o hkey2 hkey horg2 horg
+
 section srcmap_examples
 private def gfile := "/tmp/__autograph_generated_file1.py"
 private def ufile := "/u/case.py"
